@@ -154,11 +154,44 @@ def bounded(arg):
             if line is not None and not (1 <= line <= nlines):
                 failures.append({'id': 'issue_line', 'canon': 'issue line outside the analysed source',
                                  'detail': 'program %r: %s at line %r of %d' % (code[:80], label, line, nlines)})
+    # sequences on one report and across reports: the result for a code does not depend on what was analysed before
+    from pedal.core.commands import clear_report, contextualize_report
+    from pedal.tifa import tifa_analysis
+    seq_programs = [INTRO[0], "print(undefined_name)\nunused = 1\n", INTRO[2], "x = 1\nx = 'a' + 1\n",
+                    "import math\ny = math.tau * 2 + 1\nmath.tau = 'six-ish'\nprint(y)\n", "import math\nprint(math.tau + 1)\n",
+                    "vals = [1]\nvals.append('a')\nprint(vals[0] + 1)\n"]
+
+    def fresh_issues(code):
+        clear_report()
+        contextualize_report(code)
+        return issue_key(tifa_analysis())
+    alone = {}
+    for code in seq_programs:
+        alone[code] = fresh_issues(code)
+    for a in seq_programs:
+        for b in seq_programs:
+            evaluations += 1
+            distinct.add(('sequence', a[:25], b[:25]))
+            # one report: A, then B, then A again
+            clear_report()
+            contextualize_report(a)
+            first = issue_key(tifa_analysis(a))
+            tifa_analysis(b)
+            again = issue_key(tifa_analysis(a))
+            if first != alone[a] or again != alone[a]:
+                failures.append({'id': 'idempotent', 'canon': 'analysis of a code depends on what the report analysed before',
+                                 'detail': 'A=%r B=%r: alone %r, first %r, after B %r' % (a[:60], b[:60], alone[a], first, again)})
+            # a new report after another program was analysed
+            fresh_issues(b)
+            later = fresh_issues(a)
+            if later != alone[a]:
+                failures.append({'id': 'idempotent', 'canon': 'analysis of a code depends on an earlier report in the same process',
+                                 'detail': 'A=%r after B=%r: alone %r, later %r' % (a[:60], b[:60], alone[a], later)})
     samples = [{'program': FORMS[12]}, {'program': INTRO[8]}]
     return {'name': 'B-tifa-robust', 'bound': '%d programs: %d statement/expression forms of Python 3.12, %d introductory programs '
             '(builtin functions, methods of str/list/dict, branches, loops, functions, imports), every builtin name TIFA knows read '
             'and called; %d calls of every known builtin function and every public method of str/list/dict/int/float/tuple/set with 0-2 '
-            'positional arguments and each documented keyword (analysis must complete); each analysed 3 times' % (
+            'positional arguments and each documented keyword (analysis must complete); each analysed 3 times; 49 ordered pairs (A, B) of 7 programs: A alone = A, B, A on one report = A on a new report after B' % (
                 len(programs), len(FORMS), len(INTRO), len(calls)),
             'evaluations': evaluations, 'distinct_nontrivial': len(distinct),
             'rule': 'distinct = (kind, program prefix)', 'samples': samples, 'failures': failures}
